@@ -5,22 +5,37 @@ import Glom.Model.C01Env
   C18 — T and Path are faithful values: repr, pickle and slicing round-trip.
 
   Property theorems only; helper lemmas are in `Glom/Lemmas/C18.lean`.
-  Every theorem is for all literal types `L` (a literal argument is one atomic
-  token: that `eval` of its `bbrepr` text gives the value back is CPython's,
-  trusted), all roots, all step lists of any length and any nesting of T
-  arguments, all `Int` index / slice triples, and all fact tables satisfying
-  `WF`; `c18_facts_wf` discharges `WF` for what the extractor read from /repo.
+  Every theorem is for all scalar types `L` (a scalar argument — int, str, bytes,
+  float, None, True, False, Ellipsis, a builtin name — is one atomic token: that
+  Python's lexer reads its repr text back as the value is CPython's, trusted),
+  all roots, all step lists of any length and any nesting of containers
+  (tuples, lists, sets, frozensets, dicts), slice objects, nested T expressions
+  and nested Path objects in every argument position, all `Int` index / slice
+  triples, and all fact tables satisfying `WF`; `c18_facts_wf` discharges `WF`
+  for what the extractor read from /repo.
 
   Hypotheses, each with a satisfying example at the end of the file:
-    * `WF F`           the three switches of `_format_t` are on, the pickling
-                       tables name T, S, A, `Path.__getitem__` slices the steps
-    * `validT steps`   a T expression: attribute / item / call / wildcard steps
-                       whose arguments are literals or nested T expressions
-                       without `'P'` steps; no keyword twice in a call
-    * `validP steps`   the same with plain Path segments allowed at top level
+    * `WF F`           the three switches of `_format_t` are on, `_format_path` is given the
+                       root, the pickling tables name T, S, A, `Path.__getitem__` slices the
+                       steps, every size limit of the `_BBRepr` instance is >= `minLimit`
+    * `validArg a`     an argument: a scalar, a container of arguments (a set / frozenset in
+                       printed order, a dict in printed key order), a slice object, a nested
+                       T expression without `'P'` steps, a nested Path; an index that is a
+                       tuple is a step of its own kind (`items`), a slice object as an index or
+                       an element of a tuple index is `Item.slice`; no keyword twice in a
+                       call; a `'P'` segment is neither a T nor a Path (`Path.__init__`
+                       flattens those)
+    * `validT steps` / `validP steps`    the steps of a T expression / of a Path
     * `aOk root steps` an `A`-rooted Path has no call / wildcard step: such a Path cannot
                        be built (`_t_child` raises BadSpec), and `Path.__init__` — which
                        `eval` of the text runs — refuses it likewise
+    * `fitsObj S F lim x`   nothing in `x` exceeds a limit of `reprlib` (`lim`), every scalar
+                       is an expression (a finite float), the arguments printed by the
+                       builtin `repr` (plain Path segments, parts of slice objects) hold no
+                       builtin function and no set of two or more elements.  Forced:
+                       `c18_cut_counterexample`, `c18_nonfinite_counterexample`,
+                       `c18_overlong_counterexample`.  `c18_within_min_limit`: sizes up to
+                       `minLimit` = 1024 are inside whatever the instance's limits are.
   `c18_path_root_counterexample` keeps the shape of `_format_path` before commit 2a7aadd
   (`WF` requires the new one): `repr(Path(S.a, 'b'))` was `"Path(T.a, 'b')"`.
   Arithmetic-operator reprs are outside the property.
@@ -32,8 +47,22 @@ open Glom Glom.C18
     attribute as `.__('name')`, the empty tuple index as `()`, a one-element
     tuple index with a trailing comma; `__getstate__`/`__setstate__` map exactly
     the roots T, S, A; `Path.__getitem__` indexes / slices the tuple of steps;
-    `__len__`, `values`, `items` are the expected expressions on `__ops__`. -/
+    `__len__`, `values`, `items` are the expected expressions on `__ops__`; the
+    instance `bbrepr` is bound to is a `reprlib.Repr` whose every int attribute
+    (every size limit of this Python's reprlib) is at least 1024, whose
+    fillvalue is `...` and whose `repr` / `repr1` are reprlib's. -/
 theorem c18_facts_wf : WF genFacts = true := by decide
+
+/-- **`eval(bbrepr(a))` for every argument** of the grammar — scalars, tuples (`()`,
+    `(x,)`), lists, sets (`set()`), frozensets (`frozenset()`, `frozenset({…})`), dicts,
+    slice objects, nested T expressions, nested Paths, at any depth: the text is read back as
+    the same argument (keyword arguments inside it as dicts; a nested Path without plain
+    segments as the T expression it prints as), and that argument has the same text. -/
+theorem c18_roundtrip_arg {L : Type} (F : Facts) (hwf : WF F = true) (a : Arg L)
+    (hv : validArg a = true) :
+    parseArg (fmtArg F.fmt a) = some (normArg a) ∧ fmtArg F.fmt (normArg a) = fmtArg F.fmt a := by
+  rw [wf_fmt hwf]
+  exact ⟨parseArg_fmt a hv, fmtArg_norm F1 rfl a⟩
 
 /-- **`eval(repr(t))` for T expressions** rooted anywhere (T, S, A): the text is
     read back as a T expression with the same root and the same steps (keyword
@@ -43,7 +72,7 @@ theorem c18_roundtrip_t {L : Type} (F : Facts) (hwf : WF F = true) (root : Strin
     parseObj (fmtT F.fmt root steps) = some (.tobj root (normSteps steps)) ∧
     reprObj F.fmt (.tobj root (normSteps steps)) = fmtT F.fmt root steps := by
   rw [wf_fmt hwf]
-  exact ⟨parseObj_fmtT root steps hv, fmtT_norm F1 root steps⟩
+  exact ⟨parseObj_fmtT root steps hv, fmtT_norm F1 rfl root steps⟩
 
 /-- **`eval(repr(p))` for Paths** rooted anywhere (T, S, A): the text is read back as
     an object with the same root and the same steps — a Path, or a T expression when
@@ -57,16 +86,71 @@ theorem c18_roundtrip_path {L : Type} (F : Facts) (hwf : WF F = true) (root : St
   rw [wf_fmt hwf]
   exact parseObj_fmtPath_repr root steps hv hA
 
-/-- normalising only reorders keyword arguments: it changes neither the repr … -/
-theorem c18_norm_same_repr {L : Type} (F : FmtFacts) (root : String) (steps : List (Step L)) :
+/-- normalising only reorders keyword arguments (and names a segment-free nested Path by the
+    T expression it prints as): it changes neither the repr … -/
+theorem c18_norm_same_repr {L : Type} (F : FmtFacts) (hF : F.pathRootAware = true) (root : String)
+    (steps : List (Step L)) :
     fmtT F root (normSteps steps) = fmtT F root steps ∧
     fmtPath F root (normSteps steps) = fmtPath F root steps :=
-  ⟨fmtT_norm F root steps, fmtPath_norm F root steps⟩
+  ⟨fmtT_norm F hF root steps, fmtPath_norm F hF root steps⟩
 
 /-- … nor, as a dict, the keyword arguments of a call: same keys, same values -/
 theorem c18_norm_kwargs_perm {α : Type} (kwargs : List (String × α)) :
     (sortKw kwargs).Perm kwargs :=
   List.mergeSort_perm kwargs _
+
+/-- **`reprlib`'s limits lose nothing inside them**: when no scalar, container, nesting depth or
+    nested instance of `x` exceeds its limit (`fitsObj`), the pass that models `repr1`'s cuts is
+    the identity and the repr glom computes is the unlimited formatter's. -/
+theorem c18_limits_lose_nothing {L : Type} (S : ScalarOps L) (F : FmtFacts) (lim : Limits)
+    (x : C18.Obj L) (h : fitsObj S F lim x = true) :
+    x.steps.map (truncStep S F lim) = x.steps ∧ reprLim S F lim x = reprObj F x :=
+  ⟨truncSteps_of_fits S F lim x.steps h, reprLim_of_fits S F lim x h⟩
+
+/-- what fits smaller limits fits larger ones (for scalars whose `fits` is monotone) -/
+theorem c18_fits_mono {L : Type} (S : ScalarOps L) (F : FmtFacts) (lim lim' : Limits)
+    (hle : lim.le lim' = true) (hS : ∀ v, S.fits lim v = true → S.fits lim' v = true)
+    (x : C18.Obj L) (h : fitsObj S F lim x = true) : fitsObj S F lim' x = true :=
+  fitsSteps_mono S F lim lim' hle hS x.steps h
+
+/-- **Sizes up to 1024 are inside the limits** of the `_BBRepr` instance read from /repo,
+    whatever they are (facts obligation: each is at least `minLimit`): ints of up to 1024
+    digits, str / bytes / other scalars whose repr has up to 1024 characters, containers of
+    up to 1024 elements nested up to 1024 deep, nested T / Path / slice arguments whose text
+    has up to 1024 characters. -/
+theorem c18_within_min_limit (F : Facts) (hwf : WF F = true) (x : C18.Obj Scalar)
+    (h : fitsObj pyScalar F.fmt (Limits.uniform minLimit) x = true) :
+    fitsObj pyScalar F.fmt F.lim x = true :=
+  c18_fits_mono pyScalar F.fmt _ _ (wf_limits_ge hwf)
+    (pyScalar_fits_mono _ _ (wf_limits_ge hwf)) x h
+
+/-- **`eval(repr(x))` of what glom prints**, limits included: for every valid object inside the
+    limits of the instance, the text glom computes is read back as an object with the same root
+    and steps (normalised), which glom prints the same way. -/
+theorem c18_repr_roundtrip {L : Type} (S : ScalarOps L) (F : Facts) (hwf : WF F = true)
+    (x : C18.Obj L) (hv : validObj x = true) (hf : fitsObj S F.fmt F.lim x = true) :
+    ∃ y, parseObj (reprLim S F.fmt F.lim x) = some y ∧ y.root = x.root ∧
+      y.steps = normSteps x.steps ∧ reprLim S F.fmt F.lim y = reprLim S F.fmt F.lim x := by
+  have hF : F.fmt.pathRootAware = true := by rw [wf_fmt hwf]; rfl
+  rw [reprLim_of_fits S F.fmt F.lim x hf]
+  have hfit : ∀ y : C18.Obj L, y.steps = normSteps x.steps → fitsObj S F.fmt F.lim y = true := by
+    intro y hy
+    unfold fitsObj
+    rw [hy]
+    exact fitsSteps_norm S F.fmt hF F.lim x.steps hf
+  cases x with
+  | tobj r s =>
+    simp only [validObj, Bool.and_eq_true] at hv
+    obtain ⟨h1, h2⟩ := c18_roundtrip_t F hwf r s hv.2
+    refine ⟨_, h1, rfl, rfl, ?_⟩
+    rw [reprLim_of_fits S F.fmt F.lim _ (hfit _ rfl)]
+    exact h2
+  | pobj r s =>
+    simp only [validObj, Bool.and_eq_true] at hv
+    obtain ⟨y, h1, h2, h3, h4⟩ := c18_roundtrip_path F hwf r s hv.1.2 hv.2
+    refine ⟨y, h1, h2, h3, ?_⟩
+    rw [reprLim_of_fits S F.fmt F.lim y (hfit y h3)]
+    exact h4
 
 /-- **Pickling**: `__setstate__(__getstate__())` gives back root and steps for the
     roots T, S, A (pickling of the argument values themselves is `pickle`'s). -/
@@ -154,28 +238,17 @@ theorem c18_concat (env : C01.TEnv) (hwf : C01.WF env = true) (h : Heap)
 
 /-- **Checker theorem** — the form in which the round-trip property is also evaluated
     on the implementation's observation by the correspondence driver: for every valid
-    object the model's own observation (text, eval(text), repr of that, pickle round
-    trip) satisfies the checker. -/
-theorem c18_model_checks {L : Type} [BEq (Step L)] [ReflBEq (Step L)] (F : Facts)
-    (hwf : WF F = true) (render : List (Tok L) → String) (x : C18.Obj L)
-    (hv : validObj x = true) : checkRepr x (observeRepr F render x) = true := by
+    object inside the limits the model's own observation (text, eval(text), repr of that,
+    pickle round trip) satisfies the checker. -/
+theorem c18_model_checks {L : Type} [BEq (Step L)] [ReflBEq (Step L)] (S : ScalarOps L) (F : Facts)
+    (hwf : WF F = true) (x : C18.Obj L)
+    (hv : validObj x = true) (hf : fitsObj S F.fmt F.lim x = true) :
+    checkRepr x (observeRepr S F x) = true := by
   have hp := pickleObj_valid F hwf x hv
-  cases x with
-  | tobj r s =>
-    simp only [validObj, Bool.and_eq_true] at hv
-    obtain ⟨h1, h2⟩ := c18_roundtrip_t F hwf r s hv.2
-    simp only [reprObj] at h2
-    simp [checkRepr, observeRepr, reprObj, h1, h2, hp, sameObj, sameOps, Obj.root, Obj.steps]
-  | pobj r s =>
-    simp only [validObj, Bool.and_eq_true] at hv
-    obtain ⟨⟨_, hvs⟩, hA⟩ := hv
-    obtain ⟨y, h1, h2, h3, h4⟩ := c18_roundtrip_path F hwf r s hvs hA
-    have h4' : reprObj F.fmt y = reprObj F.fmt (.pobj r s) := h4
-    have h2' : y.root = (Obj.pobj r s : C18.Obj L).root := h2
-    have h3' : y.steps = normSteps (Obj.pobj r s : C18.Obj L).steps := h3
-    have h1' : parseObj (reprObj F.fmt (.pobj r s)) = some y := h1
-    simp only [checkRepr, observeRepr, h1', hp, Option.map_some, h4', h2', h3']
-    simp [sameObj, sameOps]
+  obtain ⟨y, h1, h2, h3, h4⟩ := c18_repr_roundtrip S F hwf x hv hf
+  simp only [checkRepr, observeRepr, h1, hp, Option.map_some, h4, h2, h3]
+  simp [sameObj, sameOps]
+  cases x <;> rfl
 
 end Glom.Props.C18
 
@@ -185,28 +258,50 @@ namespace Glom.C18.Examples
 open Glom Glom.C18 Glom.Props.C18
 
 /-- `T.a[1,].__('x')(1, S.q, z=2, b=T).__star__()[:2]` -/
-def exT : List (Step String) :=
-  [.attr ['a'], .items [.one (.lit "1")], .attr ['_', '_', 'x'],
-   .call [.lit "1", .t "S" [.attr ['q']]] [("z", .lit "2"), ("b", .t "T" [])],
-   .star, .item (.slice none (some (.lit "2")) none)]
+def exT : List (Step Scalar) :=
+  [.attr ['a'], .items [.one (.lit (.int 1))], .attr ['_', '_', 'x'],
+   .call [.lit (.int 1), .t "S" [.attr ['q']]] [("z", .lit (.int 2)), ("b", .t "T" [])],
+   .star, .item (.slice none (some (.lit (.int 2))) none)]
 
 example : validT exT = true := by
-  simp [exT, validT, validStep, validItem, validArg, Step.isSeg]
+  simp [exT, validT, validStep, validItem, validArg, Step.isSeg, Arg.isSliceObj, Arg.isTuple, Item.isAtom]
 
 example : validObj (.tobj "S" exT) = true := by
-  simp [exT, validObj, validT, validStep, validItem, validArg, Step.isSeg]
+  simp [exT, validObj, validT, validStep, validItem, validArg, Step.isSeg, Arg.isSliceObj, Arg.isTuple, Item.isAtom]
+
+/-- `T(10**40, [(), (1,), {'k': {2, 3}}, frozenset(), b'x'], slice(1, None, 2))['q' * 31]`:
+    every literal kind of the grammar, past reprlib's default limits, inside the instance's -/
+def exLit : List (Step Scalar) :=
+  [.call [.lit (.int (10 ^ 40)),
+          .seq .list [.seq .tuple [], .seq .tuple [.lit (.int 1)],
+                      .dict [(.lit (.str [107]), .seq .set [.lit (.int 2), .lit (.int 3)])],
+                      .seq .frozenset [], .lit (.bytes [120])],
+          .sliceObj (.lit (.int 1)) (.lit .none) (.lit (.int 2))] [],
+   .item (.one (.lit (.str (List.replicate 31 113))))]
+
+example : validT exLit = true := by
+  simp [exLit, validT, validStep, validItem, validArg, Step.isSeg, Arg.isSliceObj, Arg.isTuple, Item.isAtom]
 
 /-- `Path('a', T.b.__star__(), 2)` -/
-def exP : List (Step String) := [.seg "'a'", .attr ['b'], .star, .seg "2"]
+def exP : List (Step Scalar) :=
+  [.seg (.lit (.str [97])), .attr ['b'], .star, .seg (.lit (.int 2))]
 
-example : validP exP = true := by simp [exP, validP, validStep]
+example : validP exP = true := by simp [exP, validP, validStep, validArg, Arg.isSegArg]
 
 /-- `Path(S, 'a', T.b.__star__(), 2)` and `Path(A.b, 'a')` are valid objects -/
 example : validObj (.pobj "S" exP) = true := by
-  simp [exP, validObj, validP, validStep, aOk]
+  simp [exP, validObj, validP, validStep, validArg, Arg.isSegArg, aOk]
 
-example : validObj (.pobj "A" [.attr ['b'], .seg "'a'"] : C18.Obj String) = true := by
-  simp [validObj, validP, validStep, aOk, Step.okOnA]
+example : validObj (.pobj "A" [.attr ['b'], .seg (.lit (.str [97]))] : C18.Obj Scalar) = true := by
+  simp [validObj, validP, validStep, validArg, Arg.isSegArg, aOk, Step.okOnA]
+
+/-- a nested Path with a wildcard as a call argument: `T(Path('a', T.b.__star__(), 2))` -/
+example : validT [.call [.path "T" exP] []] = true := by
+  simp [exP, validT, validStep, validArg, Arg.isSegArg, aOk, Step.isSeg]
+
+/-- the scalars fit: ints of 41 digits, a 31-character string (both past reprlib's defaults) -/
+example : fitsObj pyScalar F1 (Limits.uniform minLimit) (.tobj "T" exP) = true := by
+  simp [exP, fitsObj, fitsSteps, fitsStep, fitsArg, fitsLit, pyScalar, Obj.steps]
 
 /-- the hypotheses of `c18_concat` are those of C01 -/
 example : C01.WF (C01.genEnv []) = true ∧
@@ -224,20 +319,63 @@ end Glom.C18.Examples
 namespace Glom.Props.C18
 open Glom Glom.C18 Glom.C18.Examples
 
+/-- **Outside the limits** (`fitsObj` is forced): a scalar that `reprlib` cuts — an int of more than
+    `maxlong` digits, a string whose repr is longer than `maxstring`, … (seeded change C18-s9:
+    `maxlong` left at 40) — is printed as a text that `eval` does not read back as the object:
+    for every scalar type, every limit table and every scalar that does not fit. -/
+theorem c18_cut_counterexample {L : Type} (S : ScalarOps L) (F : Facts) (hwf : WF F = true) (lim : Limits)
+    (root : String) (v : L) (h : S.fits lim v = false) :
+    parseObj (reprLim S F.fmt lim (.tobj root [.item (.one (.lit v))])) = none := by
+  rw [wf_fmt hwf]
+  simp [reprLim, truncStep, truncItem, truncArg, truncLit, h, fmtT, fmtSteps, assembleT, Step.isSeg,
+    fmtStep, fmtItem, fmtArg, parseObj, parseArg_root, parseSteps_br, parseIndex_def, isUnitTok, splitOn,
+    Tok.isComma, parseItem_def, Tok.isColon, parseArg_bad, consOpt]
+
+/-- **A float without a literal** (`inf`, `-inf`, `nan`) is printed as a name that is not bound:
+    `eval(repr(T(inf)))` fails, whatever the limits — finite floats are the property's domain. -/
+theorem c18_nonfinite_counterexample {L : Type} (S : ScalarOps L) (F : Facts) (hwf : WF F = true)
+    (lim : Limits) (root : String) (v : L) (h : S.evaluable v = false) :
+    parseObj (reprLim S F.fmt lim (.tobj root [.call [.lit v] []])) = none := by
+  rw [wf_fmt hwf]
+  by_cases hf : S.fits lim v = true
+  · simp [reprLim, truncStep, truncArg, truncLit, h, hf, fmtT, fmtSteps, assembleT, Step.isSeg,
+      fmtStep, fmtArg, parseObj, parseArg_root, parseSteps_par, parseCall_def, splitOn,
+      Tok.isComma, parseArg_bad, consOpt, sortKw, joinSep, dropTrailingEmpty, stripKw, allSome, callOf]
+  · have hf' : S.fits lim v = false := by simpa using hf
+    simp [reprLim, truncStep, truncArg, truncLit, hf', fmtT, fmtSteps, assembleT, Step.isSeg,
+      fmtStep, fmtArg, parseObj, parseArg_root, parseSteps_par, parseCall_def, splitOn,
+      Tok.isComma, parseArg_bad, consOpt, sortKw, joinSep, dropTrailingEmpty, stripKw, allSome, callOf]
+
+/-- **A container longer than its limit** loses the elements after the limit: with `maxlist = 2`
+    the list `[a, b, c]` is printed `[a, b, ...]`, which is not read back as the object (Python
+    reads `...` as `Ellipsis`: another list). -/
+theorem c18_overlong_counterexample {L : Type} (S : ScalarOps L) (F : Facts) (hwf : WF F = true)
+    (lim : Limits) (hl : lim.maxlist = 2) (hlev : lim.maxlevel = 6)
+    (hfit : ∀ v, S.fits lim v = true) (hev : ∀ v, S.evaluable v = true) (root : String) (a b c : L) :
+    parseObj (reprLim S F.fmt lim (.tobj root [.call [.seq .list [.lit a, .lit b, .lit c]] []])) = none ∧
+    fitsObj S F.fmt lim (.tobj root [.call [.seq .list [.lit a, .lit b, .lit c]] []]) = false := by
+  rw [wf_fmt hwf]
+  constructor
+  · simp [reprLim, truncStep, truncArg, truncLit, hfit, hev, hl, hlev, Limits.maxOf, fmtT, fmtSteps,
+      assembleT, Step.isSeg, fmtStep, fmtArg, wrapSeq, parseObj, parseArg_root, parseSteps_par,
+      parseCall_def, splitOn, Tok.isComma, parseArg_br, parseElems_def, parseArg_fill, parseArg_lit,
+      consOpt, sortKw, joinSep, dropTrailingEmpty, stripKw, allSome, callOf]
+  · simp [fitsObj, fitsSteps, fitsStep, fitsArg, Obj.steps, hl, hlev, Limits.maxOf]
+
 /-- Without `WF` (the switches of `_format_t` off, as before commit 0224102) the round trip
     fails: `T[(v,)]` is printed `T[v]` and read back as the index `v`; `T[()]` is printed
     `T[]`, which is not an expression; `T.__('x')` is printed `T.__x`, which T refuses. -/
-theorem c18_wf_counterexample (v : String) :
+theorem c18_wf_counterexample {L : Type} (v : L) :
     parseObj (fmtT F0 "T" [.items [.one (.lit v)]]) = some (.tobj "T" [.item (.one (.lit v))]) ∧
-    parseObj (fmtT F0 "T" [(.items [] : Step String)]) = none ∧
-    parseObj (fmtT F0 "T" [(.attr ['_', '_', 'x'] : Step String)]) = none := by
+    parseObj (fmtT F0 "T" [(.items [] : Step L)]) = none ∧
+    parseObj (fmtT F0 "T" [(.attr ['_', '_', 'x'] : Step L)]) = none := by
   refine ⟨?_, ?_, ?_⟩
   · simp [fmtT, fmtSteps, assembleT, Step.isSeg, fmtStep, fmtItem, fmtArg, F0, joinSep, parseObj,
-      parseSteps_br, parseIndex_def, isUnitTok, splitOn, Tok.isComma, parseItem_def, Tok.isColon,
-      parseArg_lit, consOpt, parseSteps_nil]
-  · simp [fmtT, fmtSteps, assembleT, Step.isSeg, fmtStep, F0, joinSep, parseObj, parseSteps_br,
-      parseIndex_def, isUnitTok, splitOn, parseItem_def, consOpt, parseArg]
-  · simp [fmtT, fmtSteps, assembleT, Step.isSeg, fmtStep, F0, parseObj]
+      parseArg_root, parseSteps_br, parseIndex_def, isUnitTok, splitOn, Tok.isComma, parseItem_def,
+      Tok.isColon, parseArg_lit, consOpt, parseSteps_nil]
+  · simp [fmtT, fmtSteps, assembleT, Step.isSeg, fmtStep, F0, joinSep, parseObj, parseArg_root,
+      parseSteps_br, parseIndex_def, isUnitTok, splitOn, parseItem_def, consOpt, parseArg]
+  · simp [fmtT, fmtSteps, assembleT, Step.isSeg, fmtStep, F0, parseObj, parseArg_root]
     rw [parseSteps]
     all_goals simp [isDunder, dunder]
 
@@ -245,15 +383,17 @@ theorem c18_wf_counterexample (v : String) :
     root): the text of `Path(S.a, 'b')` was `Path(T.a, 'b')`, read back with root `T` — a
     different object, evaluated against the target instead of the scope; and `Path(S.a)` was
     printed `T.a`. -/
-theorem c18_path_root_counterexample (v : String) :
-    parseObj (fmtPath FP "S" [.attr ['a'], .seg v]) = some (.pobj "T" [.attr ['a'], .seg v]) ∧
-    fmtPath FP "S" [(.attr ['a'] : Step String)] = fmtT FP "T" [.attr ['a']] := by
-  have hd : parseSteps [(Tok.dot ['a'] : Tok String)] = some [.attr ['a']] := by
+theorem c18_path_root_counterexample {L : Type} (v : L) :
+    parseObj (fmtPath FP "S" [.attr ['a'], .seg (.lit v)]) =
+      some (.pobj "T" [.attr ['a'], .seg (.lit v)]) ∧
+    fmtPath FP "S" [(.attr ['a'] : Step L)] = fmtT FP "T" [.attr ['a']] := by
+  have hd : parseSteps [(Tok.dot ['a'] : Tok L)] = some [.attr ['a']] := by
     rw [parseSteps_dot _ _ (by decide), parseSteps_nil]; rfl
   constructor
   · simp [fmtPath, FP, fmtSteps, assemblePath, groupSteps, Step.isSeg, effRoot, withRootPart,
-      partToks, groupToks, fmtStep, isDunder, dunder, joinSep, parseObj, splitOn, Tok.isComma,
-      dropTrailingEmpty, allSome, parsePart, hd, objOfParts, pathInit, pathStep, tChild]
+      partToks, groupToks, fmtStep, fmtArg, isDunder, dunder, joinSep, parseObj, parseArg_path,
+      parseElems_def, splitOn, Tok.isComma, dropTrailingEmpty, allSome, parseArg_root, parseArg_lit, hd,
+      pathOfParts, partOfArg, pathInit, pathStep, tChild]
   · simp [fmtPath, fmtT, FP, fmtSteps, assemblePath, assembleT, groupSteps, Step.isSeg, effRoot,
       fmtStep, isDunder, dunder]
 
